@@ -38,6 +38,8 @@ pub struct MrCase {
 pub enum Event<'a> {
     /// before a run starts (after the manipulations)
     RunStart { run: usize, snap: &'a [Entry] },
+    /// right after the logger of a run has been built (nothing written yet)
+    Started { run: usize, sess: &'a Sess },
     /// after an operation of a run (only delivered if `observe_ops`)
     AfterOp { run: usize, op: &'a Op, snap: &'a [Entry], model: &'a Model, sess: &'a Sess },
     /// after the run has been shut down; `lines` = bytes logged in this run
@@ -123,6 +125,10 @@ pub fn execute(
         let mut lines: Vec<u8> = Vec::new();
         let sess = Sess::start(cfg, dir, run.append, errfile, link).map_err(|e| ("start-failed".to_string(), e))?;
         let mut wrote = false;
+        if let Err(e) = cb(Event::Started { run: ri, sess: &sess }) {
+            sess.shutdown();
+            return Err(e);
+        }
         for op in &run.ops {
             if let Op::Write(len) = op {
                 let p = crate::util::payload(ex.src, ex.seq, *len);
